@@ -24,8 +24,8 @@ import (
 	sdk "github.com/cosmos/cosmos-sdk/types"
 	authtypes "github.com/cosmos/cosmos-sdk/x/auth/types"
 	banktypes "github.com/cosmos/cosmos-sdk/x/bank/types"
-	govv1 "github.com/cosmos/cosmos-sdk/x/gov/types/v1"
 	govtypes "github.com/cosmos/cosmos-sdk/x/gov/types"
+	govv1 "github.com/cosmos/cosmos-sdk/x/gov/types/v1"
 	slashingtypes "github.com/cosmos/cosmos-sdk/x/slashing/types"
 	stakingtypes "github.com/cosmos/cosmos-sdk/x/staking/types"
 	"github.com/ethereum/go-ethereum/common"
@@ -93,19 +93,20 @@ type GenesisContract struct {
 
 // World is a running fixture chain positioned inside an open block (after BeginBlock).
 type World struct {
-	Opts    Options
-	App     *app.Haqq
-	DB      dbm.DB
-	ChainID string
-	Keys    []*ethsecp256k1.PrivKey
-	Addrs   []sdk.AccAddress
-	Eth     []common.Address
-	ValKeys []*ed25519.PrivKey
-	ValAddr []sdk.ValAddress  // operator addresses
-	ValCons []sdk.ConsAddress // consensus addresses
-	Header  tmproto.Header    // header of the currently open block
-	Genesis []byte
-	InitReq abci.RequestInitChain
+	Opts     Options
+	App      *app.Haqq
+	DB       dbm.DB
+	ChainID  string
+	Keys     []*ethsecp256k1.PrivKey
+	Addrs    []sdk.AccAddress
+	Eth      []common.Address
+	ValKeys  []*ed25519.PrivKey
+	ValAddr  []sdk.ValAddress  // operator addresses
+	ValCons  []sdk.ConsAddress // consensus addresses
+	Header   tmproto.Header    // header of the currently open block
+	Genesis  []byte
+	ValPower int64 // consensus power of each genesis validator
+	InitReq  abci.RequestInitChain
 }
 
 func Key(i int) *ethsecp256k1.PrivKey {
@@ -219,7 +220,7 @@ func New(o Options) *World {
 		if err != nil {
 			panic(err)
 		}
-		tv := tmtypes.NewValidator(tmpk, 1)
+		tv := tmtypes.NewValidator(tmpk, o.ValTokens.Quo(pow10(18)).Int64())
 		tmVals = append(tmVals, tv)
 		pkAny, err := codectypes.NewAnyWithValue(vk.PubKey())
 		if err != nil {
@@ -336,6 +337,7 @@ func New(o Options) *World {
 		panic(err)
 	}
 	w.Genesis = stateBytes
+	w.ValPower = o.ValTokens.Quo(pow10(18)).Int64()
 
 	cparams := *app.DefaultConsensusParams
 	blk := *cparams.Block
@@ -375,7 +377,7 @@ func (w *World) CommitInfo(absent map[int]bool) abci.CommitInfo {
 	var votes []abci.VoteInfo
 	for i, c := range w.ValCons {
 		votes = append(votes, abci.VoteInfo{
-			Validator:       abci.Validator{Address: c, Power: 1},
+			Validator:       abci.Validator{Address: c, Power: w.ValPower},
 			SignedLastBlock: !absent[i],
 		})
 	}
